@@ -124,6 +124,39 @@ Theorem C12_break_class_table_correct : forall vs, block_level_page_break vs = b
 Proof. exact break_class_table_correct. Qed.
 Print Assumptions C12_break_class_table_correct.
 
+(* --- which values meet at a boundary (CSS Fragmentation 3, 3.1): at the boundary between
+   two sibling boxes the model folds the break-after values of the first box and of every
+   box that ends with it (its last child, that one's last child, ...; innermost first) and
+   the break-before values of the second box and of every box that starts it (outermost
+   first) -- `sibling_break`, stated on the flow tree.  In particular a break-after on the
+   LAST child of a block acts at the boundary between that block and its next sibling. *)
+Theorem C12_boundary_break_values_spec :
+  forall f1 f2 anc1 pg1 anc2 pg2 pre post,
+    wf_flow f1 = true -> wf_flow f2 = true ->
+    boundary_brk (pre ++ lin anc1 pg1 f1 ++ lin anc2 pg2 f2 ++ post)
+                 (length pre + length (lin anc1 pg1 f1)) = sibling_break f1 f2.
+Proof. exact boundary_brk_siblings. Qed.
+Print Assumptions C12_boundary_break_values_spec.
+
+Theorem C12_closing_values_spec : forall f anc pg, wf_flow f = true ->
+  map c_ba (u_closes (last (lin anc pg f) dummy_unit)) = closing_ba f.
+Proof. exact lin_closing_values. Qed.
+Print Assumptions C12_closing_values_spec.
+
+Theorem C12_opening_values_spec : forall f anc pg, wf_flow f = true ->
+  map o_bb (u_opens (hd dummy_unit (lin anc pg f))) = opening_bb f.
+Proof. exact lin_opening_values. Qed.
+Print Assumptions C12_opening_values_spec.
+
+(* break-after: page on the last of two children forces a break between the parent and the
+   next sibling; the same value on the first child does not *)
+Example C12_example_break_after_last_child :
+  sibling_break (Blk 0 0 0 0 BAuto BAuto BAuto 0
+                   [Mono 30; Blk 0 0 0 0 BAuto BPage BAuto 0 [Para 1 20 1 1]]) (Para 2 20 1 1) = BPage /\
+  sibling_break (Blk 0 0 0 0 BAuto BAuto BAuto 0
+                   [Blk 0 0 0 0 BAuto BPage BAuto 0 [Para 1 20 1 1]; Mono 30]) (Para 2 20 1 1) = BAuto.
+Proof. vm_compute. auto. Qed.
+
 (* --- page sequence: sides alternate from the first page's side, index = position,
    :first only on page 0, a blank page exactly before content that asked for the
    other side, names from the content that starts the page *)
